@@ -33,7 +33,15 @@ RULE = ('projects are random DAGs of 1..7 libraries plus 1..2 executables create
         'out in turn over the generated projects and one shape project (archives reaching shared libraries plainly, '
         'forwarded, through library() of mode-decided kind, through a dual-use library and whole-archived) is built '
         'under each of them; in process, every object that a shared library takes in (its own and those of every '
-        'archive in its closure) must be compiled with -fPIC under all four modes.')
+        'archive in its closure) must be compiled with -fPIC under all four modes. Configure environments are dealt out '
+        'in turn over the system-level projects (none, LDLIBS=-lm, LDLIBS=-lz -lm with LDFLAGS, LDFLAGS only, LDLIBS=-lm '
+        '-lz): every executable and shared-only library then calls cbrt / zlibVersion on run-time values, and the project '
+        'contains libraries of its own that no node links but that are NAMED like those system libraries (libm.so, libz.so '
+        'defining the same functions with other results), placed in the output directory of a shared library a program '
+        'links and built before anything is linked; a system function bound to the namesake shows in the printed sum and '
+        'in DT_NEEDED (read with patchelf). Search directories: no link command (make -n) and no flag list of a real link '
+        'step (in process, every generated project) may carry a -L into the build tree unless a library of that directory '
+        'is on the line by -l name (project libraries are handed over by path).')
 TRUSTED = ('R model ld_pass (single-pass archive semantics of GNU ld) validated against the real gcc/ld on this run',
            'R model ldso_dir ($ORIGIN substitution and lexical dot-dot resolution of the dynamic loader; no symlinked '
            'directories in the build tree) validated by running the built executables before and after moving the build '
@@ -66,6 +74,26 @@ W_GROUPS = [['-u', 'reg_a'], ['-u', 'reg_b'], ['-Xlinker', '--defsym', '-Xlinker
 N_OBJ = 3     # opts.pthread(), opts.debug(), opts.static()
 OBJ_FLAG = ['-pthread', '-g', '-static']      # what CcLinker.flags makes of them
 N_PKG = 4
+# system libraries a configure environment can ask for by name (LDLIBS=-l<name>): header, declaration (per node), a C
+# expression that is 0 when the call reaches the SYSTEM library (evaluated on run-time values), and the source of a
+# project library of the same name whose function of that name gives another result (the expression is then far from 0)
+SYSLIBS = {
+    'm': ('math.h', 'static volatile double c14_m%d = 27.0;\n', '(((long long)(cbrt(c14_m%d) + 0.5)) - 3) * 100000',
+          'double cbrt(double x) { return x - 1000.0; }\n'),
+    'z': ('zlib.h', '', "(zlibVersion()[0] == '1' && zlibVersion()[1] == '.' ? 0 : 700000)",
+          'const char *zlibVersion(void) { return "decoy"; }\n'),
+}
+# configure environments of the system-level projects, dealt out in turn: (flag variables, names of the project
+# libraries that are called like a system library)
+SYSTEM_ENVS = [({}, []), ({'LDLIBS': '-lm'}, ['m']), ({'LDLIBS': '-lz -lm', 'LDFLAGS': '-Wl,-O1'}, ['z']),
+               ({'LDFLAGS': '-Wl,-O1 -Wl,--hash-style=gnu'}, ['m']), ({'LDLIBS': '-lm -lz'}, ['m', 'z'])]
+
+
+def env_syslibs(env):
+    """the system libraries that the LDLIBS of a configure environment names"""
+    return [w[2:] for w in env.get('LDLIBS', '').split() if w.startswith('-l') and w[2:] in SYSLIBS]
+
+
 # string ids on the wire: STR_POOL index | 50 + p: -Lpk<p> | 60 + p: pksym<p> | 1000 + k: k-th literal of the project
 
 
@@ -106,15 +134,27 @@ class Node:
 
 
 class Project:
-    def __init__(self, mode, nodes):
+    """env (system-level projects only): flag variables of the configure environment, e.g. {'LDLIBS': '-lz -lm'};
+    decoys (system-level only): [(dir, name)] - libraries of the project that no node links but that carry the NAME
+    of a system library (z, m) and live in one of the output directories; they define the function of their system
+    namesake with another result, see SYSLIBS."""
+
+    def __init__(self, mode, nodes, env=None, decoys=None):
         self.mode, self.nodes = tuple(mode), nodes
+        self.env = dict(env or {})
+        self.decoys = [tuple(d) for d in (decoys or [])]
 
     def to_json(self):
-        return {'mode': list(self.mode), 'nodes': [n.to_json() for n in self.nodes]}
+        d = {'mode': list(self.mode), 'nodes': [n.to_json() for n in self.nodes]}
+        if self.env:
+            d['env'] = self.env
+        if self.decoys:
+            d['decoys'] = [list(x) for x in self.decoys]
+        return d
 
     @staticmethod
     def from_json(d):
-        return Project(d['mode'], [Node.from_json(n) for n in d['nodes']])
+        return Project(d['mode'], [Node.from_json(n) for n in d['nodes']], d.get('env'), d.get('decoys'))
 
     def eff_kind(self, i):
         k = self.nodes[i].kind
@@ -274,8 +314,28 @@ def pkg_libs_tokens(pk):
     return ['-Wl,--defsym=%s=%d' % tuple(pk['def']), '-u', pk['plug'][0]]
 
 
-def gen_project(rng, rep=None, system=False, max_libs=7, mode=None):
-    """mode: the (shared, static) library mode; drawn when None"""
+def add_system_env(proj, rng, env, decoy_names):
+    """Gives a system-level project a configure environment and project libraries named like system libraries.
+    Every executable and every shared-only library calls one function of each system library that LDLIBS names (the
+    global LDLIBS reach every dynamic link step).  Each decoy goes into the output directory of a shared library that an
+    executable links directly when there is one (else of one some step links, else of any node): the directory a
+    careless -L would name."""
+    proj.env = dict(env)
+    names = env_syslibs(env)
+    for i, n in enumerate(proj.nodes):
+        if names and (n.exe or proj.eff_kind(i) == 'shared'):
+            n.feat = dict(n.feat or {})
+            n.feat['sys'] = list(names)
+    sh = [j for j in range(len(proj.nodes)) if not proj.nodes[j].exe and proj.eff_kind(j) in ('shared', 'dual')]
+    direct = [j for j in sh if any(n.exe and any(d == j for d, _ in n.deps) for n in proj.nodes)]
+    linked = [j for j in sh if any(any(d == j for d, _ in n.deps) for n in proj.nodes)]
+    cands = direct or linked or list(range(len(proj.nodes)))
+    proj.decoys = [(proj.nodes[rng.choice(cands)].dir, nm) for nm in decoy_names]
+
+
+def gen_project(rng, rep=None, system=False, max_libs=7, mode=None, sysenv=None):
+    """mode: the (shared, static) library mode; drawn when None.  sysenv: (flag variables of the configure environment,
+    names of decoy libraries) of a system-level project"""
     nlibs = rng.randint(1, max_libs)
     nexe = rng.randint(1, 2)
     drawn = rng.choice(SYSTEM_MODES + ([] if system else [(False, False)]))
@@ -346,6 +406,8 @@ def gen_project(rng, rep=None, system=False, max_libs=7, mode=None):
         uses = [j for j in dset if exe or rng.random() < 0.75]
         nodes.append(Node(kind, deps, lopts, pkgs, rng.choice(DIRS), uses, exe, feat))
     p = Project(mode, nodes)
+    if system and sysenv is not None:
+        add_system_env(p, rng, sysenv[0], sysenv[1])
     if rep is not None:
         rep.count('mode:shared=%d,static=%d' % mode)
         for n in nodes:
@@ -451,6 +513,19 @@ def system_corpus():
         _sysnode(3, 'shared', [(0, False)], 'bin', [0], exe=True)]
     add_forced_plugin(nodes[0], 0, 2, nodes[2].lopts, nodes[2].feat, 40, False)
     res.append(Project((True, False), nodes))
+    # the configure-environment dimension: system libraries asked for by name (LDLIBS) while the project has libraries
+    # of its own that are called the same, in the directories of the shared libraries its programs link (directly and
+    # through another shared library); one program links only archives
+    p = Project((True, False), [
+        _sysnode(0, 'shared', [], 'lib', []),
+        _sysnode(1, 'static', [], 'a/b', [], spec=[('u', 5)]),
+        _sysnode(2, 'shared', [(0, False)], 'lib/sub', [0]),
+        _sysnode(3, 'shared', [(2, False), (1, False)], 'bin', [1, 2], exe=True, spec=[('x', 4)]),
+        _sysnode(4, 'shared', [(0, False)], '', [0], exe=True),
+        _sysnode(5, 'shared', [(1, False)], 'bin', [1], exe=True)])
+    add_system_env(p, random.Random(0), {'LDLIBS': '-lz -lm'}, [])
+    p.decoys = [('lib/sub', 'm'), ('lib', 'z'), ('', 'm')]
+    res.append(p)
     # the configure-mode dimension: one shape under every --enable/--disable-shared/static combination that can build
     # it.  Archives reach shared libraries in every way: listed plainly, forwarded by another archive, through a
     # library() whose kind the mode decides, through a dual-use library, and whole-archived
@@ -860,6 +935,30 @@ def oracle_project(rep, proj, fixed):
                              {'project': proj.to_json(), 'node': n, 'kind': 'options'},
                              classes=classify(proj, fixed, 'options'))
         fl = [flag_text(f) for f in c.flags()]
+        # library search directories.  A project library reaches the linker by its path; a -L<dir of the build tree> is
+        # justified only by a library of that directory that the line names with -l.  Any other one makes every request by
+        # name on the line (LDLIBS, packages, the language run time) look into the project's own output directories first
+        byname = set(flag_text(f) for f in c.lib_flags() if flag_text(f).startswith('-l'))
+        justified = set()
+        for x in o:
+            if isinstance(x, opts.lib) and not isinstance(x.library, str):
+                base = posixpath.basename(x.library.path.suffix)
+                m = re.match(r'lib(.+)\.(?:so|a)$', base)
+                if m and '-l' + m.group(1) in byname:
+                    justified.add(posixpath.dirname(x.library.path.suffix))
+        rep.count('oracle:link-steps-checked-for-search-dirs')
+        strayL = [f for f in fl if f.startswith('-LPATH:') and f[len('-LPATH:'):].rstrip('/') not in justified]
+        if strayL:
+            rep.count('oracle:link-steps-with-unjustified-search-dir')
+        if strayL and rep.hist.get('oracle:link-steps-with-unjustified-search-dir', 0) <= 6:
+            # (a handful of reports; the rest is counted - the system stage shows the consequence)
+            bad += 1
+            rep.fail('link of n%d: the flags carry the search directories %r of the build tree, but every library of those '
+                     'directories is on the line by its path (%r): a library asked for by name would be looked up among the '
+                     "project's outputs first" % (n, [f[len('-LPATH:'):] or '.' for f in strayL],
+                                                  [flag_text(f) for f in c.lib_flags()]),
+                     {'project': proj.to_json(), 'node': n, 'kind': 'search-dir', 'flags': fl},
+                     classes=classify(proj, fixed, 'search-dir'))
         # token level.  Every run of string tokens of the link options of a reachable forwarding library, of an own
         # or forwarded package and of the link step itself is a contiguous block, tokens in order, of the final
         # option list and of the flags handed to the linker (a multi-token option such as -u SYM must not be torn
@@ -973,6 +1072,12 @@ def write_project(proj, src):
         terms = ['3 * (%s)' % (' + '.join('f%d()' % j for j in n.uses) or '0')]
         terms += ['(%s ? %s() : 0)' % (nm, nm) for nm, _ in plugs]
         terms += ['(long long)(long)q_%s' % nm for nm in defs]
+        # a function of each system library that the configure environment asks for by name: 0 when the call reaches
+        # the system library, far from 0 when it reaches a project library that merely has the same name
+        for nm in ft.get('sys', []):
+            hdr, decl, expr0, _ = SYSLIBS[nm]
+            protos = '#include <%s>\n' % hdr + protos + (decl % i if decl else '')
+            terms.append(expr0 % i if '%d' in expr0 else expr0)
         # the code of a node refers to a global variable and a global function it defines itself (through the
         # variable's address as well): in a shared object such references need position-independent code, so the
         # objects of an archive that ends up in a shared library must have been compiled for that
@@ -1011,6 +1116,10 @@ def write_project(proj, src):
             if n.kind == 'dual':
                 args += ", kind='dual'"
             lines.append('n%d = %s(%s)' % (i, fn, args))
+    for k, (ddir, nm) in enumerate(proj.decoys):
+        with open(os.path.join(src, 'decoy_%s.c' % nm), 'w') as f:
+            f.write(SYSLIBS[nm][3])
+        lines.append("decoy%d = shared_library(%r, files=[%r])" % (k, posixpath.join(ddir, nm), 'decoy_%s.c' % nm))
     with open(os.path.join(src, 'build.bfg'), 'w') as f:
         f.write('\n'.join(lines) + '\n')
 
@@ -1135,7 +1244,10 @@ def system_project(rep, proj, fixed, keep=False):
         cmd = cfg + ['configure', bld, '--backend=make', '--no-resolve-packages',
                      '--enable-shared' if proj.mode[0] else '--disable-shared',
                      '--enable-static' if proj.mode[1] else '--disable-static']
-        rc, out, err = sh(cmd, src, env)
+        for k in ('CFLAGS', 'CPPFLAGS', 'LDFLAGS', 'LDLIBS', 'LIBRARY_PATH'):
+            env.pop(k, None)
+        # the flag variables of the project's configure environment exist while configuring only (bfg9000 records them)
+        rc, out, err = sh(cmd, src, dict(env, **proj.env))
         if rc != 0:
             rep.fail('bfg9000 configure failed on a generated project: %s' % (err or out)[-400:],
                      {'project': proj.to_json(), 'kind': 'configure', 'stderr': err[-2000:]},
@@ -1163,6 +1275,31 @@ def system_project(rep, proj, fixed, keep=False):
                      'options in this project)' % (n, g, who, argvs.get(n), len(lost)),
                      {'project': proj.to_json(), 'kind': 'build-option-tokens', 'node': n, 'option': g, 'from': who,
                       'argv': argvs.get(n), 'all': lost[:20]}, classes=classify(proj, fixed, 'options'))
+        # library search directories: every project library is handed to the linker by its path, so no link command may
+        # carry a -L into the build (or source) tree that neither the script nor the environment asked for - a library
+        # asked for by NAME (-l from LDLIBS, a package, the language run time) would be looked up there first and found in
+        # a project library that merely has the same name
+        given = set(w for v in proj.env.values() for w in shlex.split(v))
+        stray = []
+        for n, argv in sorted(argvs.items()):
+            own = set(t for _, g in option_groups(proj, n) for t in g) | given
+            for k, w in enumerate(argv):
+                if w.startswith('-L') and w not in own:
+                    dname = w[2:] or (argv[k + 1] if k + 1 < len(argv) else '')
+                    full = os.path.normpath(os.path.join(bld, dname))
+                    rep.count('sys:link-search-dir-not-from-script')
+                    if any((full + '/').startswith(os.path.normpath(t) + '/') for t in (bld, src)):
+                        stray.append((n, w, [x for x in argv if x.startswith('-l')]))
+        rep.count('sys:link-commands-checked-for-search-dirs', len(argvs))
+        if stray:
+            n, w, byname = stray[0]
+            bad += 1
+            rep.fail('link command of n%d carries the library search directory %r into the build tree although every '
+                     'project library is given by its path; libraries asked for by name on this line: %r; project '
+                     'libraries named like system libraries: %r (%d such directories in this project): %r' % (
+                         n, w, byname, ['%s/lib%s.so' % d for d in proj.decoys], len(stray), argvs.get(n)),
+                     {'project': proj.to_json(), 'kind': 'search-dir', 'node': n, 'word': w, 'argv': argvs.get(n),
+                      'all': stray[:20]}, classes=classify(proj, fixed, 'search-dir'))
         # the link lines the real build uses == the model's final libs; and the ld model's verdict
         calls, meta = [], []
         w = proj.wire()
@@ -1179,6 +1316,16 @@ def system_project(rep, proj, fixed, keep=False):
             verdict_calls.append(('ld.links', [w, roots, lines.get(n) or [], detect_as_needed()]))
         verdicts = [dec('ld.links', r) for r in common.model_batch(verdict_calls)]
         predicted_ok = all(verdicts)
+        if proj.decoys:
+            # the order in which independent targets get built is not the project's choice: here the libraries that no
+            # node links exist before any node is linked
+            rc, out, err = sh(['make', '-j4'] + sorted(set(posixpath.join(dd, 'lib%s.so' % nm) for dd, nm in proj.decoys)),
+                              bld, env, timeout=600)
+            if rc != 0:
+                rep.fail('the generated project does not build (libraries named like system libraries): %s' % err[-500:],
+                         {'project': proj.to_json(), 'kind': 'build', 'stderr': err[-3000:]},
+                         classes=classify(proj, fixed, 'build'))
+                return bad + 1, dis
         rc, out, err = sh(['make', '-j4'], bld, env, timeout=600)
         rep.traces += 1
         # one direction only: a real shared library also exports the symbols of the archives linked into it, so
@@ -1210,8 +1357,25 @@ def system_project(rep, proj, fixed, keep=False):
                         i, phase, rc, out.strip(), want, err[-300:]),
                         {'project': proj.to_json(), 'kind': 'run-' + phase, 'exe': i, 'stderr': err[-1000:]},
                         classes=classify(proj, fixed, 'run'))
+        # what each linked binary recorded as needed at run time: never a project library that no node links (it can
+        # only have got there through a request by name that was meant for the system library of that name)
+        decoy_files = set('lib%s.so' % nm for _, nm in proj.decoys)
+        for i, n in enumerate(proj.nodes):
+            if not decoy_files or not (n.exe or proj.eff_kind(i) in ('shared', 'dual')):
+                continue
+            fp = os.path.join(bld, n.dir, ('n%d' if n.exe else 'libn%d.so') % i)
+            pr = subprocess.run(['patchelf', '--print-needed', fp], capture_output=True, text=True, env=env)
+            needed = pr.stdout.split()
+            rep.count('sys:needed-lists-read')
+            if pr.returncode != 0 or decoy_files & set(needed):
+                bad += 1
+                rep.fail('n%d is bound to %r, a library of the project that it does not link and that is merely named like '
+                         'the system library its link line asks for by name (configure environment %r); DT_NEEDED: %r, '
+                         'link command: %r' % (i, sorted(decoy_files & set(needed)), proj.env, needed, argvs.get(i)),
+                         {'project': proj.to_json(), 'kind': 'bound-to-namesake', 'node': i, 'needed': needed,
+                          'argv': argvs.get(i)}, classes=classify(proj, fixed, 'run'))
         run_all(bld, 'in place')
-        moved = os.path.join(d, 'moved', 'deeper', 'elsewhere')
+        moved =os.path.join(d, 'moved', 'deeper', 'elsewhere')
         os.makedirs(os.path.dirname(moved))
         os.rename(bld, moved)
         shutil.rmtree(src)           # nothing may be picked up from the old locations
@@ -1239,6 +1403,9 @@ def stage_system(rep, rng, fixed, generated, ncorpus=None):
             for k in ('plugs', 'xplugs', 'defs', 'force', 'pkg'):
                 if nd.feat.get(k):
                     rep.count('sys:node-with-%s%s' % (k, ':exe' if nd.exe else ''))
+        rep.count('sys:configure-env:' + (' '.join('%s=%s' % kv for kv in sorted(p.env.items())) or 'no flag variables'))
+        for dd, nm in p.decoys:
+            rep.count('sys:project-library-named-like-system-library:' + nm)
         b, d = system_project(rep, p, fixed)
         bad += b
         dis.extend((p, x) for x in d)
@@ -1366,7 +1533,8 @@ def run_check(rep, thorough):
     nsys = 110 if thorough else 8
     # the projects of the system stage also go through the tie and the in-process oracle
     # the library modes are dealt out in turn, not drawn: every run builds real projects under each of them
-    sysprojs = [gen_project(rng, None, system=True, max_libs=6, mode=SYSTEM_MODES[k % 3]) for k in range(nsys)]
+    sysprojs = [gen_project(rng, None, system=True, max_libs=6, mode=SYSTEM_MODES[k % 3],
+                            sysenv=SYSTEM_ENVS[k % len(SYSTEM_ENVS)]) for k in range(nsys)]
     projects = corpus_projects() + [gen_project(rng, rep) for _ in range(nproj)] + sysprojs
     dis = stage_w_links(rep, rng, fixed, projects)
     dis2 = stage_w_rpath(rep, rng, 600 if thorough else 120)
@@ -1385,8 +1553,8 @@ def run_check(rep, thorough):
     rep.stage('oracle:property-on-real-objects', projects=len(oprojects), failures_including_known_findings=nfail,
               violations=len(rep.violations) - v0)
     if dis or dis2 or len(rep.violations) > v0:
-        sysprojs = sysprojs + [gen_project(rng, None, system=True, max_libs=6, mode=SYSTEM_MODES[k % 3])
-                               for k in range(nsys)]
+        sysprojs = sysprojs + [gen_project(rng, None, system=True, max_libs=6, mode=SYSTEM_MODES[k % 3],
+                                           sysenv=SYSTEM_ENVS[(k + 1) % len(SYSTEM_ENVS)]) for k in range(nsys)]
     sbad, sdis = stage_system(rep, rng, fixed, sysprojs, None if thorough else 7)
     found = len(rep.violations) - v0
     if sdis and not rep.n_with_input:
@@ -1424,7 +1592,8 @@ def replay(rep, path):
     if getattr(rep, 'c14_law', None) and not n:
         rep.fail(rep.c14_law[0], rep.c14_law[1], found_input=False)
         n += 1
-    if (r.get('kind', '').startswith(('run', 'build', 'order', 'configure', 'option')) or
+    if (r.get('kind', '').startswith(('run', 'build', 'order', 'configure', 'option', 'bound', 'search-dir')) or
+            proj.env or proj.decoys or
             any(nd.feat for nd in proj.nodes)) and all(nd.system_ok() for nd in proj.nodes):
         b, _ = system_project(rep, proj, fixed)
         n += b
